@@ -189,6 +189,8 @@ def run(R):
         kind = label.split(':')[0]
         R.count('renaming', (tname, label), nontrivial=True)
         case = {'template': tname, 'renaming': names, 'grammar': r['desc']}
+        if r.get('grammar_error') == 'unconfirmed-timeout' or b.get('grammar_error') == 'unconfirmed-timeout':
+            continue
         if 'grammar_error' in r:
             R.counterexample('renaming', f'{kind}:grammar-rejected:' + (r['grammar_error'].split(':') + ['?', '?'])[1] + ' @ ' + label.split(':')[-1],
                              case, 'a grammar module like for the plain names', r['grammar_error'][:200])
